@@ -3,6 +3,7 @@ package ast
 import (
 	"bytes"
 	"fmt"
+	"sort"
 	"strings"
 
 	"github.com/risor-io/risor/internal/tmpl"
@@ -269,11 +270,31 @@ func (m *Map) Literal() string { return m.token.Literal }
 
 func (m *Map) Items() map[Expression]Expression { return m.items }
 
+// OrderedKeys returns the keys of the map literal in source order, so that
+// users of the node do not depend on Go's map iteration order.
+func (m *Map) OrderedKeys() []Expression {
+	keys := make([]Expression, 0, len(m.items))
+	for key := range m.items {
+		keys = append(keys, key)
+	}
+	sort.SliceStable(keys, func(i, j int) bool {
+		a, b := keys[i].Token().StartPosition, keys[j].Token().StartPosition
+		if a.Line != b.Line {
+			return a.Line < b.Line
+		}
+		if a.Column != b.Column {
+			return a.Column < b.Column
+		}
+		return a.Char < b.Char
+	})
+	return keys
+}
+
 func (m *Map) String() string {
 	var out bytes.Buffer
 	pairs := make([]string, 0)
-	for key, value := range m.items {
-		pairs = append(pairs, key.String()+":"+value.String())
+	for _, key := range m.OrderedKeys() {
+		pairs = append(pairs, key.String()+":"+m.items[key].String())
 	}
 	out.WriteString("{")
 	out.WriteString(strings.Join(pairs, ", "))
